@@ -132,3 +132,45 @@ for fname in ("linspace", "logspace"):
             c.ensures("(lambda g: near(g[0], x) and near(g[2], y * f) and near(g[1] * 2, x + y * f))([v for v in result.magnitude.value])", "evenly-spaced-between-the-end-points")
         c.no_raise()
         c.modifies()
+
+
+# ---- the in-place methods of a RESULT (rebase, to) change that result only: the operands it was computed from keep their value, text,
+#      unit list and factor, and convert afterwards as before ---------------------------------------------------------------------------
+DERIVED = [("mul", "c:m", "m", "m:m"), ("mul", "k:m", "c:m", "m"), ("div", "m^2", "c:m", "m:m^2"), ("mul", "g", "k:g", "m:g"), ("div", "k:m", "m", "c:m")]
+
+
+for meth in ("rebase", "to"):
+    @contract(f"{Q}.{meth}", ["C04", "C07"], name=f"Quantity.{meth}[of-a-product-or-quotient]")
+    def _(c, meth=meth):
+        c.bound = "products and quotients of two quantities of the same dimension in different units"
+        for how, ua, ub, target in DERIVED:
+            def pre(bd, how=how, ua=ua, ub=ub, target=target):
+                a, x, _ = one(bd, ua, err=False, name="a")
+                b, y, _ = one(bd, ub, err=False, name="b")
+                p, exc = bd.call_catching(bd.getattr(a, "__mul__" if how == "mul" else "__truediv__"), b)
+                bd.assume(exc is None)    # the quotient by zero is not a pre-state
+                ta = merge_terms(T(ua), T(ub), 1 if how == "mul" else -1)
+                args = [p] if meth == "rebase" else [p, U.render(rebased(ta))]
+                return dict(args=args, env=dict(qa=a, qb=b, x=x, fa=U.factor(T(ua)), target=U.render(T(target)), ft=U.factor(T(target))))
+            c.scenario(f"{ua} {'*' if how == 'mul' else '/'} {ub}", pre)
+        c.ensures("obs(qa) == old(obs(qa)) and obs(qb) == old(obs(qb))", "operands-of-the-product-report-the-same")
+        c.ensures("near((5 * qa).value(target) * ft, 5 * x * fa)", "a-multiple-of-the-operand-converts-as-before")
+
+
+def merge_terms(ta, tb, sign):
+    from contracts.units_common import merge
+    return merge(ta, tb, sign)
+
+
+def rebased(terms):
+    """one unit per dimension: the first unit of each base symbol, exponents added"""
+    from fractions import Fraction as PF
+    out = []
+    for p, u, n, d in terms:
+        for o in out:
+            if o[1] == u:
+                o[2] += PF(n, d)
+                break
+        else:
+            out.append([p, u, PF(n, d)])
+    return [(p, u, e.numerator, e.denominator) for p, u, e in out if e != 0] or [("", "m", 0, 1)]
